@@ -234,7 +234,7 @@ def parse_fn_block(header, lines):
                 fs.expect_sig = arg
             elif kw == 'nloops':
                 flush()
-                fs.nloops = int(arg)
+                fs.nloops = -1 if arg.strip() == '*' else int(arg)
             elif kw == 'broadcast':
                 flush()
                 fs.broadcast = arg.strip()
@@ -417,7 +417,7 @@ def gen_fn(fs, cfg, log, vac=False):
             after += ' proof { assert(false); } // @VAC %s loop%d\n' % (where, k)
         body = body[:ob] + ins + '{' + after + body[ob + 1:]
     expected = fs.nloops if fs.nloops is not None else len(fs.loops)
-    if len(loops) != expected:
+    if expected != -1 and len(loops) != expected:
         # a loop was added or removed: ordinal-anchored invariants would land on the wrong loop
         raise ExtractError('%s: %d loops in the rewritten body, the contract was written for %d (lost anchor)' % (where, len(loops), expected))
     # body start / end
